@@ -16,7 +16,8 @@ from mc import core, explorer
 NEEDS_BRIDGEPOINT = False
 ASSUMPTIONS = [
     'element universe of 3 (quick) / 5 (thorough) hashable values; operands range over every ordered subset; the search is run for '
-    'a seed-chosen palette and for a palette of falsy values including None',
+    'a seed-chosen palette, for a palette of falsy values including None and for a palette of elements (tuples, a string, a big integer, '
+    'a real) every use of which is a fresh equal copy (nothing may depend on the identity of an element)',
     'order is claimed for add, |=, construction, removals (survivors keep their order); & | - ^ results are compared as sets',
     'equality with unordered sets, with lists holding duplicates and with non-iterables is outside the statement',
     'in-place operands also include lists/generators yielding an element more than once (a mathematical operand holds it once) and '
@@ -33,6 +34,21 @@ PALETTES = [
 # elements that are falsy or None (None is also what an empty query set answers for first / last): always explored, whatever the seed
 FALSY_PALETTE = [None, 0, '', (), 0.5]
 OUTSIDE = 'zz-not-a-member'
+# (round 12, C17-23) elements of which equal but not identical copies can be made: with this palette every use of an element -- as
+# argument, inside an operand -- is a fresh copy, so nothing may depend on the identity of an element
+TWIN_PALETTE = [(0,), 'ab', 10 ** 20, 2.5, ('t', 1)]
+
+
+def twin(v):
+    if isinstance(v, tuple) and v:
+        return tuple(list(v))
+    if isinstance(v, str) and len(v) > 1:
+        return ''.join(list(v))
+    if isinstance(v, int) and not isinstance(v, bool) and abs(v) > 10 ** 6:
+        return int(str(v))
+    if isinstance(v, float):
+        return float(repr(v))
+    return v
 
 
 def ordered_subsets(universe):
@@ -53,6 +69,7 @@ class SetModel(explorer.Model):
     def __init__(self, clsname, usize, seed, palette=None):
         self.clsname = clsname
         self.universe = (palette or PALETTES[seed % len(PALETTES)])[:usize]
+        self.twins = palette is TWIN_PALETTE
         self.idx = list(range(usize))
         self.operands = ordered_subsets(self.universe)
 
@@ -62,6 +79,8 @@ class SetModel(explorer.Model):
         return getattr(xtuml, name or self.clsname)
 
     def val(self, i):
+        if self.universe is TWIN_PALETTE or getattr(self, 'twins', False):
+            return twin(self.universe[i])
         return self.universe[i]
 
     def raw_operand(self, kind, elems):
@@ -516,7 +535,8 @@ def unit_test(model, hist, op):
 def models(ctx):
     usize = 3 if ctx.quick else 5
     ms = [SetModel('OrderedSet', usize, ctx.seed), SetModel('QuerySet', usize, ctx.seed),
-          SetModel('OrderedSet', usize, ctx.seed, FALSY_PALETTE), SetModel('QuerySet', usize, ctx.seed, FALSY_PALETTE)]
+          SetModel('OrderedSet', usize, ctx.seed, FALSY_PALETTE), SetModel('QuerySet', usize, ctx.seed, FALSY_PALETTE),
+          SetModel('OrderedSet', usize, ctx.seed, TWIN_PALETTE), SetModel('QuerySet', usize, ctx.seed, TWIN_PALETTE)]
     for m in ms:
         m.limit_s = 5.0 if ctx.quick else 40.0
     return ms
@@ -630,9 +650,10 @@ def replay(ctx, case):
     if case.get('family') == 'large':
         return large_task(ctx, [case])
     m = SetModel(case['cls'], len(case['universe']), 0)
-    for pal in PALETTES + [FALSY_PALETTE]:
+    for pal in PALETTES + [FALSY_PALETTE, TWIN_PALETTE]:
         if list(map(repr, pal[:len(case['universe'])])) == case['universe']:
             m.universe = pal[:len(case['universe'])]
+            m.twins = pal is TWIN_PALETTE
     explorer.replay_case(ctx, m, case['hist'], case.get('op'))
 
 
